@@ -1,0 +1,46 @@
+//go:build verif
+
+// Contracts for stateless transaction validation (C39), read by /verif/gocv.
+package validation
+
+// address attributed to signature entry i of a transaction
+//@ spec entryAddr(tx *types.Transaction, i int) common.Address = ite(len(tx.Sigs[i].PubKeys) == 1, addrOfKey(ref(tx.Sigs[i].PubKeys[0])), multiAddrOf(ref(tx.Sigs[i].PubKeys), len(tx.Sigs[i].PubKeys), int(tx.Sigs[i].M)))
+
+//@ func checkTransactionSignatures
+//@   property C39
+//@   mode abstract
+//@   requires tx != nil
+//@   modifies tx.SignedAddr
+//@   ghost var okE ArrU64Bool
+//@   assume entry : forall j uint64 :: !sel(okE, j)
+//@   ghost var gi int = 0
+//@   set before "m := int(sig.M)" : gi := gi + 1
+//@   loop 1 invariant gi == it1 && hash == tx.hash
+//@   set after "err := signature.Verify(sig.PubKeys[0], hash[:], sig.SigData[0])" : okE := upd(okE, uint64(gi-1), err == nil)
+//@   set after "if err := signature.VerifyMultiSignature(hash[:], sig.PubKeys, m, sig.SigData); err != nil" : okE := upd(okE, uint64(gi-1), true)
+//@   -- the entry count is within limits
+//@   ensures[c39-count] result == nil ==> len(tx.Sigs) <= 16
+//@   -- every entry has 1 <= m <= n <= 16 keys and at least m signatures, and passed its own check:
+//@   ensures[c39-shape-m] result == nil ==> forall i int :: 0 <= i && i < len(tx.Sigs) ==> 1 <= int(tx.Sigs[i].M) && int(tx.Sigs[i].M) <= len(tx.Sigs[i].PubKeys)
+//@   ensures[c39-shape-n] result == nil ==> forall i int :: 0 <= i && i < len(tx.Sigs) ==> len(tx.Sigs[i].PubKeys) <= 16
+//@   ensures[c39-shape-sigs] result == nil ==> forall i int :: 0 <= i && i < len(tx.Sigs) ==> len(tx.Sigs[i].SigData) >= int(tx.Sigs[i].M)
+//@   ensures[c39-verified] result == nil ==> forall i int :: 0 <= i && i < len(tx.Sigs) ==> sel(okE, uint64(i))
+//@   -- a single-key entry is verified with its key over the transaction hash and its first signature; an m-of-n entry
+//@   -- with its key list, its m and its signature list (VerifyMultiSignature: m distinct key positions, verified under C14)
+//@   callsite[c39-single-key] Verify#1 requires arg0 == sig.PubKeys[0]
+//@   callsite[c39-single-hash] Verify#1 requires len(arg1) == 32 && packbytes(arg1, 0, 32) == tx.hash
+//@   callsite[c39-single-sig] Verify#1 requires arg2 == sig.SigData[0]
+//@   callsite[c39-multi] VerifyMultiSignature#1 requires len(arg0) == 32 && packbytes(arg0, 0, 32) == tx.hash && arg1 == sig.PubKeys && arg2 == int(sig.M) && arg3 == sig.SigData
+//@   loop 1 invariant !isnil(address) && len(tx.Sigs) <= 16
+//@   loop 1 invariant forall i int :: 0 <= i && i < it1 ==> sel(okE, uint64(i))
+//@   loop 1 invariant forall i int :: 0 <= i && i < it1 ==> 1 <= int(tx.Sigs[i].M) && int(tx.Sigs[i].M) <= len(tx.Sigs[i].PubKeys)
+//@   loop 1 invariant forall i int :: 0 <= i && i < it1 ==> len(tx.Sigs[i].PubKeys) <= 16
+//@   loop 1 invariant forall i int :: 0 <= i && i < it1 ==> len(tx.Sigs[i].SigData) >= int(tx.Sigs[i].M)
+//@   -- the signer addresses attributed to the transaction are exactly the addresses of its entries
+//@   loop 1 invariant forall i int :: 0 <= i && i < it1 ==> has(address, entryAddr(tx, i))
+//@   ghost var src Arr160Int
+//@   set after "address[types.AddressFromPubKey(sig.PubKeys[0])] = true" : src := upd(src, addrOfKey(ref(sig.PubKeys[0])), gi-1)
+//@   set after "address[addr] = true" : src := upd(src, addr, gi-1)
+//@   loop 1 invariant forall a common.Address :: has(address, a) ==> 0 <= sel(src, a) && sel(src, a) < it1 && a == entryAddr(tx, sel(src, a))
+//@   loop 2 invariant len(addrList) == it2 && forall j int :: 0 <= j && j < it2 ==> addrList[j] == sel(seq2, j)
+//@   ensures[c39-attributed-sound] result == nil ==> forall j int :: 0 <= j && j < len(tx.SignedAddr) ==> 0 <= sel(src, tx.SignedAddr[j]) && sel(src, tx.SignedAddr[j]) < len(tx.Sigs) && tx.SignedAddr[j] == entryAddr(tx, sel(src, tx.SignedAddr[j]))
